@@ -70,6 +70,12 @@ def specs():
                         if not nullable and kt in IMPLICIT_OK:
                             out.append({"kt": kt, "flexible": True, "nullable": False, "array": False,
                                         "tagged": True, "default": False})
+    # kio's documented convention for tagged ignorable fields without default: `T | None = None` also for types WITHOUT a
+    # wire-level null (absent tag <-> None, any value <-> sent).  No Kafka bytes to compare with, but the round trip is
+    # defined: these rows are swept by C01 only
+    for kt in KAFKA_TYPES:
+        if kt not in NULLABLE_KT and kt != "records":
+            out.append({"kt": kt, "flexible": True, "nullable": True, "array": False, "tagged": True, "default": True, "convention": True})
     # request-header client_id rule is covered on the real header classes by the main exploration
     return out
 
@@ -123,6 +129,8 @@ def sweep(run, tier, prop="C02"):
     acc = Acc(max_samples=3)
     n = 0
     for spec in specs():
+        if spec.get("convention") and prop != "C01":
+            continue
         ws = make(spec)
         ex = values.Explorer(ws, 2, mode, 32767, long_arrays=True)
         seen = set()
